@@ -155,6 +155,11 @@ def route_call(route, expr, var, point_dict):
 def routes_for(spec_vars, var, point_dict):
     """Route names applicable to an expression with variables spec_vars, differentiating by var."""
     rs = list(ROUTES_ANY)
+    if len(spec_vars) == 0:
+        # Derivative accepts a variable-free expression (its derivative is 0 whatever the point is)
+        rs += [r for r in ROUTES_ONEVAR if not r.endswith("_number")]
+        if var in point_dict:
+            rs += [r for r in ROUTES_ONEVAR if r.endswith("_number")]
     if len(spec_vars) == 1 and var in spec_vars:
         rs += [r for r in ROUTES_ONEVAR if not r.endswith("_number")]
         if var in point_dict:
